@@ -3,6 +3,7 @@ package main
 import (
 	"bytes"
 	"encoding/json"
+	"errors"
 	"fmt"
 	"io"
 	"os"
@@ -33,6 +34,8 @@ type c19Scn struct {
 	Platform []string            `json:"platform"`
 	Expect   map[string][]string `json:"expect"`
 	Ctor     string              `json:"ctor,omitempty"`
+	Kind     string              `json:"kind,omitempty"`
+	Reject   map[string]string   `json:"reject,omitempty"`
 }
 
 type c19Env struct {
@@ -87,6 +90,15 @@ func tagOf(tag string) (string, int) {
 
 // option returns the real option function for a tag.
 func (e *c19Env) option(tag string) util.Option {
+	switch tag {
+	case "WithTransportType:bogus":
+		return options.WithTransportType("bogus")
+	case "WithNetconfPreferredVersion:bogus":
+		return options.WithNetconfPreferredVersion("2.0")
+	case "WithSSHKnownHostsFile:missing":
+		return options.WithSSHKnownHostsFile(filepath.Join(e.dir, "no-such-file"))
+	}
+
 	name, v := tagOf(tag)
 	s := fmt.Sprintf("%d", v)
 
@@ -340,6 +352,10 @@ func c19Run(e *c19Env, s *c19Scn, ctor string) verdict {
 	build := func(tags []string) []util.Option {
 		var o []util.Option
 		for _, t := range tags {
+			if t == "NoPrivilegeLevels:0" {
+				continue
+			}
+
 			o = append(o, e.option(t))
 		}
 
@@ -347,6 +363,12 @@ func c19Run(e *c19Env, s *c19Scn, ctor string) verdict {
 	}
 
 	base := []util.Option{options.WithPrivilegeLevels(stdLevels()), options.WithDefaultDesiredPriv("configuration")}
+
+	for _, t := range s.User {
+		if t == "NoPrivilegeLevels:0" {
+			base = base[1:] // the default desired privilege level alone is not enough
+		}
+	}
 
 	var g *generic.Driver
 
@@ -403,6 +425,33 @@ func c19Run(e *c19Env, s *c19Scn, ctor string) verdict {
 
 	if pan != nil {
 		fail(&v, "C19:"+ctor+":panic", "constructor panicked for platform options %v + user options %v: %v", s.Platform, s.User, pan)
+
+		return v
+	}
+
+	if s.Kind == "invalid" {
+		want := s.Reject[ctor]
+		bad := err != nil && errors.Is(err, util.ErrBadOption)
+		inv := ""
+
+		for _, t := range s.User {
+			if strings.HasSuffix(t, ":bogus") || strings.HasSuffix(t, ":missing") || t == "NoPrivilegeLevels:0" {
+				inv = t
+			}
+		}
+
+		switch {
+		case want == "bad" && err == nil:
+			fail(&v, "C19:"+ctor+":invalid-accepted:"+inv, "constructor %s accepted the invalid option in %v", ctor, s.User)
+		case want == "bad" && !bad:
+			fail(&v, "C19:"+ctor+":invalid-wrong-error:"+inv, "constructor %s rejected %v with %v, which is not a bad-option error", ctor, s.User, err)
+		case want == "bad-or-ignored" && err != nil && !bad:
+			fail(&v, "C19:"+ctor+":invalid-wrong-error:"+inv, "constructor %s: %v for %v (neither ignored nor a bad-option error)", ctor, err, s.User)
+		case want == "error" && err == nil:
+			fail(&v, "C19:"+ctor+":invalid-accepted:"+inv, "constructor %s accepted %v", ctor, s.User)
+		case want == "" && err != nil:
+			fail(&v, "C19:"+ctor+":error:"+errClass(err), "constructor failed for %v: %v", s.User, err)
+		}
 
 		return v
 	}
